@@ -9,7 +9,7 @@ def build(tier, seed):
     quick = tier == "quick"
     shapes_ = wc.standard_shapes(tier, "st")
     if quick:
-        shapes_ = [x for i, x in enumerate(shapes_) if i % 3 == seed % 3 or "_t0_" in x[0] or "_tb_" in x[0] or "pfx" in x[0]]
+        shapes_ = [x for i, x in enumerate(shapes_) if i % 3 == seed % 3 or "_t0_" in x[0] or "_tb_" in x[0] or "pfx" in x[0] or "_len128" in x[0]]
     for name, kw in shapes_:
         qs.append(wc.wq(name, witness=("_t0_" in name), **kw))
     # refused adds must not be counted: histories with refusals before / after a block cut, equal keys
